@@ -451,6 +451,57 @@ def helper_cases(ctx, hook):
     return n + 1
 
 
+def echo_blocking_cases(ctx, hook):
+    """A blocked receive()/iteration on a loop-back port while "another thread" (the sleep hook)
+    sends and/or closes: a message the port has taken in before the close must still be handed out."""
+    n = 0
+    for events in (('send',), ('send', 'close'), ('close',), ('send', 'send', 'close'), ('close', 'send')):
+        for at in (1, 2):
+            for how in ('receive', 'iterate'):
+                case = {'kind': 'echo-blocking', 'events': list(events), 'at_sleep': at, 'how': how}
+                log = []
+                port = RecEcho('e', log=log)
+                sent = []
+
+                def fire():
+                    for ev in events:
+                        if ev == 'send':
+                            try:
+                                port.send(out_msg(len(sent) + 1))
+                                sent.append(('o', len(sent) + 1))
+                            except ValueError:
+                                pass               # sending after the close is refused
+                        else:
+                            port.close()
+                hook.arm({at: 'arrive'}, fire, None)
+                try:
+                    if how == 'receive':
+                        try:
+                            got = [tag_of(port.receive())]
+                        except (ValueError, OSError):
+                            got = []
+                        want = sent[:1]
+                    else:
+                        if 'close' not in events:
+                            continue
+                        # EchoPort iterates its pending messages only; use the blocking protocol directly
+                        got = []
+                        try:
+                            while True:
+                                got.append(tag_of(port.receive()))
+                        except (ValueError, OSError):
+                            pass
+                        want = list(sent)
+                    ctx.check('results == lifecycle model', got == want, f'echo-blocking:{how}', case,
+                              lambda: {'got': got, 'want': want})
+                    ctx.check('blocking call bounded sleeps', hook.n <= at + 2, 'echo-blocking:sleeps', case, hook.n)
+                except HarnessAbort as exc:
+                    ctx.check('blocking call bounded sleeps', False, 'echo-blocking:never-returns', case, str(exc))
+                port.closed = True
+                n += 1
+    return n
+
+
 def multiport_cases(ctx, hook):
     n = 0
     for nmem in (0, 1, 2, 3):
@@ -698,6 +749,10 @@ def run(ctx):
             k = helper_cases(ctx, hook)
             ctx.nontrivial(None, k)
             n += k
+            k = echo_blocking_cases(ctx, hook)
+            ctx.nontrivial(None, k)
+            ctx.extra('echo_blocking_cases', k)
+            n += k
     finally:
         mido.ports.sleep = orig
     n += concurrency_part(ctx, ctx.tier, lambda j: j % ctx.nshards == ctx.shard)
@@ -720,6 +775,8 @@ def replay(ctx, case):
             multiport_cases(ctx, hook)
         elif k == 'helpers':
             helper_cases(ctx, hook)
+        elif k == 'echo-blocking':
+            echo_blocking_cases(ctx, hook)
     finally:
         mido.ports.sleep = orig
     if case['kind'] == 'sched':
